@@ -177,6 +177,42 @@ func checkRoundTrip(c *vlib.Ctx, width int, n uint64) {
 	if es := varint.EncodedSize(n); es != len(ref) {
 		c.Violate("encoded-size", "EncodedSize", "wrong-size", fmt.Sprintf("EncodedSize(%d) = %d, reference %d", n, es, len(ref)), w)
 	}
+	// the returned slice belongs to the caller: scribbling over it (and over its spare capacity) must not change what
+	// a later Pack of the same or a neighbouring value returns
+	if len(packed) > 0 {
+		scr := packed[:cap(packed)]
+		for i := range scr {
+			scr[i] ^= 0xff
+		}
+		for _, v := range []uint64{n, n ^ 1} {
+			var again []byte
+			switch width {
+			case 8:
+				again = varint.Pack8(uint8(v))
+			case 16:
+				again = varint.Pack16(uint16(v))
+			case 32:
+				again = varint.Pack32(uint32(v))
+			case 64:
+				again = varint.Pack64(v)
+			}
+			want := v
+			switch width {
+			case 8:
+				want = uint64(uint8(v))
+			case 16:
+				want = uint64(uint16(v))
+			case 32:
+				want = uint64(uint32(v))
+			}
+			if !bytes.Equal(again, refPack(want)) {
+				c.Violate("pack-result-is-owned-by-the-caller", name, "later-pack-corrupted", fmt.Sprintf("after the caller overwrote the bytes returned by %s(%d), %s(%d) = %x, reference %x", name, n, name, want, again, refPack(want)), w)
+			}
+		}
+		for i := range scr {
+			scr[i] ^= 0xff
+		}
+	}
 	// unpack with the same and all wider widths, with and without trailing bytes
 	for _, u := range unpackers {
 		for _, tail := range [][]byte{nil, {0x00}, {0xff, 0x80}} {
@@ -268,7 +304,7 @@ func boundaryValues() []uint64 {
 
 func main() {
 	vlib.Main("C10", "model_checking", func(c *vlib.Ctx) {
-		c.Rule("exhaustive enumeration: all 2^8/2^16 values, 2^24 low range + every value within 3 of every power of two for 32/64 bit (round trip, minimality, EncodedSize, trailing bytes; each encoding is also given to every narrower unpacker, which must refuse it); " +
+		c.Rule("exhaustive enumeration: all 2^8/2^16 values, 2^24 low range + every value within 3 of every power of two for 32/64 bit (round trip, minimality, EncodedSize, trailing bytes; each encoding is also given to every narrower unpacker, which must refuse it; the caller overwrites every packed result and packs again); " +
 			"all byte strings of length<=3 and all strings of length 4..10 over {00,01,7f,80,ff} for every UnpackN; GetNextBlock over all byte strings <=3, 5-symbol strings <=7 and every boundary length prefix x short payload; " +
 			"non-trivial = distinct byte strings that start a multi-byte varint (first byte >= 0x80, length >= 2), counted while enumerating; each input evaluated against the textbook reference")
 		c.Assume("reference decoder treats non-minimal (zero-padded) encodings as 'value or error' since the property only fixes the packed form to be minimal")
